@@ -69,12 +69,12 @@ fn check_new(rank: usize, d: [(i32, i32); 3]) {
     std::mem::forget(a);
 }
 
-//# harness new_and_bounds_rank1 tier=quick label=bounded(shape=A(-1..1)) props=C04 fn=rusty_variant/src/array_value.rs::VArray::new,rusty_variant/src/array_value.rs::VArray::get_dimension_bounds timeout=400
+//# harness new_and_bounds_rank1 tier=quick label=bounded(shape=A(-1..1)) props=C04 fn=rusty_variant/src/array_value.rs::VArray::new,rusty_variant/src/array_value.rs::VArray::get_dimension_bounds timeout=900
 harness!(new_and_bounds_rank1, 14, {
     check_new(1, [(-1, 1), (0, 0), (0, 0)]);
 });
 
-//# harness new_and_bounds_rank3 tier=quick label=bounded(shape=A(1..2,-1..0,0..2)) props=C04 fn=rusty_variant/src/array_value.rs::VArray::new,rusty_variant/src/array_value.rs::VArray::get_dimension_bounds timeout=400
+//# harness new_and_bounds_rank3 tier=quick label=bounded(shape=A(1..2,-1..0,0..2)) props=C04 fn=rusty_variant/src/array_value.rs::VArray::new,rusty_variant/src/array_value.rs::VArray::get_dimension_bounds timeout=900
 harness!(new_and_bounds_rank3, 14, {
     check_new(3, [(1, 2), (-1, 0), (0, 2)]);
 });
@@ -97,22 +97,22 @@ fn check_abs_index(rank: usize, d: [(i32, i32); 3]) {
     std::mem::forget(a);
 }
 
-//# harness abs_index_rank1 tier=quick label=bounded(shape=A(-1..1)) props=C04 fn=rusty_variant/src/array_value.rs::VArray::abs_index timeout=400
+//# harness abs_index_rank1 tier=quick label=bounded(shape=A(-1..1)) props=C04 fn=rusty_variant/src/array_value.rs::VArray::abs_index timeout=900
 harness!(abs_index_rank1, 14, {
     check_abs_index(1, [(-1, 1), (0, 0), (0, 0)]);
 });
 
-//# harness abs_index_rank2 tier=quick label=bounded(shape=A(0..1,-1..1)) props=C04 fn=rusty_variant/src/array_value.rs::VArray::abs_index timeout=400
+//# harness abs_index_rank2 tier=quick label=bounded(shape=A(0..1,-1..1)) props=C04 fn=rusty_variant/src/array_value.rs::VArray::abs_index timeout=900
 harness!(abs_index_rank2, 14, {
     check_abs_index(2, [(0, 1), (-1, 1), (0, 0)]);
 });
 
-//# harness abs_index_rank3 tier=quick label=bounded(shape=A(1..2,-1..0,0..2)) props=C04 fn=rusty_variant/src/array_value.rs::VArray::abs_index timeout=400
+//# harness abs_index_rank3 tier=quick label=bounded(shape=A(1..2,-1..0,0..2)) props=C04 fn=rusty_variant/src/array_value.rs::VArray::abs_index timeout=900
 harness!(abs_index_rank3, 14, {
     check_abs_index(3, [(1, 2), (-1, 0), (0, 2)]);
 });
 
-//# harness store_changes_one_element tier=quick label=bounded(shape=A(0..1,-1..1)) props=C04 fn=rusty_variant/src/array_value.rs::VArray::get_element_mut,rusty_variant/src/array_value.rs::VArray::get_element timeout=400
+//# harness store_changes_one_element tier=quick label=bounded(shape=A(0..1,-1..1)) props=C04 fn=rusty_variant/src/array_value.rs::VArray::get_element_mut,rusty_variant/src/array_value.rs::VArray::get_element timeout=900
 harness!(store_changes_one_element, 14, {
     let d = [(0, 1), (-1, 1), (0, 0)];
     let rank = 2;
